@@ -46,6 +46,21 @@ using hx::violation; using hx::tr;
 #endif
 static const int BUILD_BITS = PPL_COEFFICIENT_BITS;
 
+// per-width magnitudes of the random operands: chosen (measured) so that 10-25 % of the steps overflow
+void cfg::configure(int bits) {
+  Config& g = G(); g.bits = bits;
+  g.lim = bits == 64 ? 0x7fffffffffffffffL : (1L << (bits - 1)) - 1;
+  switch (bits) {
+  case 8:  g.small = 3;  g.mid = 10;      g.maxdim = 2; break;
+  case 16: g.small = 8;  g.mid = 300;     g.maxdim = 3; break;
+  case 32: g.small = 40; g.mid = 20000;   g.maxdim = 3; break;
+  default: g.small = 2000; g.mid = 2000000000L; g.maxdim = 3; break;
+  }
+  g.small = hx::opt().geti("small", g.small); g.mid = hx::opt().geti("mid", g.mid);
+  g.edge_pct = (int) hx::opt().geti("edge", g.edge_pct); g.maxdim = (int) hx::opt().geti("maxdim", g.maxdim);
+  g.pip_maxcol = hx::opt().geti("pipmaxcol", 0) != 0;
+}
+
 // ---------------------------------------------------------------------------
 // payload encoding
 // ---------------------------------------------------------------------------
@@ -388,6 +403,7 @@ static void run_case(uint64_t seed) {
       tr(" | " + text); hx::count("op." + dom + "." + op);
       if (g_mode == LOG) { fprintf(g_log, "S %ld %d %s\n", cs, s, op.c_str()); fflush(g_log); }
     };
+    if (g_mode == LOG && s == 1 && hx::opt().geti("selfcrash", -1) == cs) { volatile int* p = 0; *p = 1; }   // self-test of the crash path
     Items items; std::string payload; enum { XR_OK, XR_OVF, XR_HANG, XR_EXC } res = XR_OK; std::string exc_type, exc_what;
     try { pplx::Weight_Guard wg(200000000ULL); sc->step(ctx, items); payload = encode(items); }
     catch (const pplx::Logical_Timeout&) { res = XR_HANG; payload = "HANG"; }
